@@ -310,6 +310,17 @@ macro_rules! gf255_field {
                     let (e, f) = u.sub_subadd2_noreduce(&v, &w);
                     Ok(format!("{} {}", ohex(&(e * c).encode()), ohex(&(f * c).encode())))
                 },
+                // only the 51-bit-limb backend has this one
+                "nr_add8_sub8" => {
+                    #[cfg(feature = "m51")]
+                    {
+                        let u = x(0, rg)?; let v = x(1, rg)?; let c = x(2, rg)?;
+                        let (e, f) = u.add8_sub8_noreduce(&v);
+                        Ok(format!("{} {}", ohex(&(e * c).encode()), ohex(&(f * c).encode())))
+                    }
+                    #[cfg(not(feature = "m51"))]
+                    { Err("nr_add8_sub8 exists in the m51 backend only".into()) }
+                },
             });
     };
 }
@@ -323,6 +334,8 @@ gf255_field!(f_gf255s, GF255s);
 // operations on them).
 gf255_field!(f_gf255_mq31, GF255<31>);
 gf255_field!(f_gf255_mq32765, GF255<32765>);
+gf255_field!(f_gf255_mq4111, GF255<4111>);
+gf255_field!(f_gf255_mq7549, GF255<7549>);
 
 macro_rules! modint_field {
     ($fname:ident, $T:ty) => {
@@ -747,7 +760,7 @@ pub fn f_gfb254(op: &str, a: &[&str], rg: &mut Vec<GFb254>) -> R {
 #[derive(Default)]
 pub struct FieldRegs {
     gf25519: Vec<GF25519>, gf255e: Vec<GF255e>, gf255s: Vec<GF255s>,
-    gf255_mq31: Vec<GF255<31>>, gf255_mq32765: Vec<GF255<32765>>,
+    gf255_mq31: Vec<GF255<31>>, gf255_mq32765: Vec<GF255<32765>>, gf255_mq4111: Vec<GF255<4111>>, gf255_mq7549: Vec<GF255<7549>>,
     gfp256: Vec<GFp256>, gfsecp256k1: Vec<GFsecp256k1>, gf448: Vec<GF448>,
     sc25519: Vec<crrl::ed25519::Scalar>, scp256: Vec<crrl::p256::Scalar>,
     scsecp: Vec<crrl::secp256k1::Scalar>, scjq255e: Vec<crrl::jq255e::Scalar>,
@@ -786,6 +799,8 @@ pub fn dispatch(ty: &str, op: &str, a: &[&str], r: &mut FieldRegs) -> R {
         "gf255s" => f_gf255s(op, a, &mut r.gf255s),
         "gf255_mq31" => f_gf255_mq31(op, a, &mut r.gf255_mq31),
         "gf255_mq32765" => f_gf255_mq32765(op, a, &mut r.gf255_mq32765),
+        "gf255_mq4111" => f_gf255_mq4111(op, a, &mut r.gf255_mq4111),
+        "gf255_mq7549" => f_gf255_mq7549(op, a, &mut r.gf255_mq7549),
         "gfp256" => f_gfp256(op, a, &mut r.gfp256),
         "gfsecp256k1" => f_gfsecp256k1(op, a, &mut r.gfsecp256k1),
         "gf448" => f_gf448(op, a, &mut r.gf448),
